@@ -232,6 +232,14 @@ def constraint_breaks(version, o, objects):
                         sub.pop(n)
                     out.append((lab + ":neither-" + "/".join(names), oo))
             elif kind == "requires":
+                if c[1] in tbl["by_name"] and tbl["by_name"][c[1]]["k"] in ("string", "int", "float", "bool"):
+                    # present but falsy ('' / 0 / false) still requires its partners
+                    oo = copy.deepcopy(o)
+                    sub = get(oo, path)
+                    sub[c[1]] = {"string": "", "int": 0, "float": 0.0, "bool": False}[tbl["by_name"][c[1]]["k"]]
+                    for b in c[2]:
+                        sub.pop(b, None)
+                    out.append((lab + ":falsy-%s-without-%s" % (c[1], "/".join(c[2])), oo))
                 if c[1] in sub0:
                     oo = copy.deepcopy(o)
                     sub = get(oo, path)
@@ -308,6 +316,19 @@ def named_breaks(version, name, o, path, tbl):
         s["country"] = "us"
         s["precision"] = 5.0
         out.append(("location:precision-without-coordinates", oo))
+        # the same with falsy values: a property that is present is present, whatever it holds
+        for falsy_lab, lat, prec in (("zero-latitude-without-longitude", 0.0, None), ("zero-longitude-without-latitude", None, None), ("zero-precision-without-coordinates", None, 0.0)):
+            oo, s = mut()
+            for n in ("latitude", "longitude", "precision"):
+                s.pop(n, None)
+            s["region"] = s.get("region", "northern-america")
+            if falsy_lab.startswith("zero-latitude"):
+                s["latitude"] = 0.0
+            elif falsy_lab.startswith("zero-longitude"):
+                s["longitude"] = 0
+            else:
+                s["precision"] = 0.0
+            out.append(("location:" + falsy_lab, oo))
     elif name == "malware-family-name":
         oo, s = mut()
         s["is_family"] = True
